@@ -328,6 +328,16 @@ class Interp(Engine):
                     for k, h in list(zip(keys, hit))[-2::-1]:
                         r = self.ite(h, self.lift(obj[k]), r)
                     return r
+                if isinstance(obj, dict) and self.as_int(idx) is not None and all(isinstance(k, int) for k in obj):
+                    keys = list(obj.keys())
+                    it = self.as_int(idx).t
+                    hit = [it == k for k in keys]
+                    if not keys or not self.branch(z3.Or(hit)):
+                        raise PyRaise(KeyError, "key not in dict", self.cur_line)
+                    r = self.lift(obj[keys[-1]])
+                    for k, h in list(zip(keys, hit))[-2::-1]:
+                        r = self.ite(h, self.lift(obj[k]), r)
+                    return r
                 # native sequence of ints indexed symbolically -> If chain
                 iv = self.as_int(idx)
                 if isinstance(obj, (tuple, list)) and iv is not None and all(isinstance(x, int) for x in obj):
